@@ -5,10 +5,10 @@ from fractions import Fraction
 from ..core.canon import fs
 
 NAME_FAMILIES = {
-    "plain": ["A", "B", "C", "D", "E", "F", "G"],
+    "plain": ["A", "B", "C", "D", "E", "F", "G", "H", "I"],
     # listing order, sort order and (very likely) hash order all disagree
-    "disorder": ["b", "A", "c10", "c9", "Z", "a", "_x"],
-    "odd": ["Ann Lee", "O'Neil", "x,y", "Ünal", 'q"t', " lead", "Z z"],
+    "disorder": ["b", "A", "c10", "c9", "Z", "a", "_x", "B2", "aa"],
+    "odd": ["Ann Lee", "O'Neil", "x,y", "Ünal", 'q"t', " lead", "Z z", "d.e", "K-9"],
 }
 
 STV_FAMILY = ("STV", "IRV", "SequentialRCV")
@@ -51,7 +51,9 @@ def gen_names(rng, n):
 
 def gen_ranked_profile(rng, *, allow_ties=False, int_weights=False, min_c=1, max_c=6, max_ballots=10, unit_cap=None, tie_bias=0.0):
     """-> (jprofile, shape)   ballots are ranked; ties inside positions only if allow_ties"""
-    n = wchoice(rng, [(k, w) for k, w in zip(range(1, 8), [1, 3, 5, 6, 5, 3, 1]) if min_c <= k <= max_c])
+    n = wchoice(rng, [(k, w) for k, w in zip(range(1, 10), [1, 3, 5, 6, 5, 3, 1, 0.5, 0.5]) if min_c <= k <= max_c])
+    if n >= 7:
+        max_ballots = max(max_ballots, 18)
     names, fam = gen_names(rng, n)
     wfam = wchoice(rng, [("ones", 3), ("small", 4), ("mid", 3), ("big", 1)] + ([] if int_weights else [("rat", 3)]))
     if unit_cap and wfam == "big":
@@ -196,6 +198,12 @@ def gen_rule_case(rng, rules=ALL_RULES, *, max_c=6, tiebreaks=TIEBREAKS, tie_bia
         cfg = {"quota": wchoice(rng, [("droop", 3), ("hare", 1)]), "tiebreak": tb}
     elif rule in ("Plurality", "SNTV", "Borda"):
         cfg = {"m": m, "tiebreak": tb}
+        if rule == "Borda" and rng.random() < 0.3:
+            # custom positional vectors (shorter, equal or longer than the candidate list; non-increasing, non-negative)
+            L = rng.choice([max(1, n - 1), n, n + 1])
+            vec = sorted([rng.choice([0, 1, 1, 2, 3, 5]) for _ in range(L)], reverse=True)
+            if any(vec):
+                cfg["score_vector"] = vec
     elif rule == "TopTwo":
         cfg = {"tiebreak": tb}
     elif rule == "Alaska":
